@@ -100,6 +100,40 @@ func bypassFile(r *rng.R, f *ach.File) {
 	}
 }
 
+// bypassValid returns a clone of f with the bypass options stored on it and 10-character origin / destination values
+// exactly where the matching flag is set (the file stays valid under its options); nil if it does not tabulate.
+func bypassValid(r *rng.R, f *ach.File) (out *ach.File) {
+	defer func() {
+		if recover() != nil {
+			out = nil
+		}
+	}()
+	if f.IsADV() {
+		return nil
+	}
+	g := gen.Clone(f)
+	o := &ach.ValidateOpts{}
+	switch r.Intn(3) {
+	case 0:
+		o.BypassOriginValidation = true
+	case 1:
+		o.BypassDestinationValidation = true
+	default:
+		o.BypassOriginValidation, o.BypassDestinationValidation = true, true
+	}
+	gen.ApplyOpts(g, o)
+	if o.BypassOriginValidation {
+		g.Header.ImmediateOrigin = "1" + digits(r, 9)
+	}
+	if o.BypassDestinationValidation {
+		g.Header.ImmediateDestination = "9" + digits(r, 9)
+	}
+	if !retabulate(g) {
+		return nil
+	}
+	return g
+}
+
 func flagsString(o *ach.ValidateOpts) string { return passedString(o) }
 
 func optsFromFlags(s string) *ach.ValidateOpts {
